@@ -185,7 +185,7 @@ example : addMissingFrom (fun _ => true) [s "Europe/Berlin", s "America/New_York
   `items`, which every theorem above is about. -/
 
 theorem body_property_items (sorted : Bool) (c : Comp) :
-    ∃ l, Gen.BodiesSer.Component_property_items Bodies.nameToIcalP Bodies.sortedKeysP Bodies.keysP Bodies.getitemP
+    ∃ l, Gen.BodiesSer.Component_property_items (name_to_ical := Bodies.nameToIcalP) (sorted_keys := Bodies.sortedKeysP) (keys := Bodies.keysP) (getitem := Bodies.getitemP)
         c true sorted = .ok l ∧ l.map Bodies.ivItem = items sorted c :=
   Bodies.property_items_items sorted c
 
